@@ -107,6 +107,27 @@ claim("C13", "E4+E5",
       "DESIGN.md sections 5.2 (X6), 5.3 (L1)")
 
 
+claim("C01", "E2+E1",
+      "static analysis: forward order-taint of every HashMap/HashSet iteration over MIR (adapters, collects, loops, callees, return summaries) with an audited table and re-checked witnesses; who-may-call rules for clock/env/thread/address/statics; reuse of the forced happens-before result of C02",
+      "Static decision of the structural clauses of repeatable builds: the process-dependent inputs (hash seeds, clock, environment, thread identity, "
+      "addresses, hidden shared state) cannot reach a context slot or the font bytes except through order-normalising operations, and (with C02's "
+      "result) every job reads the same values in every schedule. A HashMap leak shows only for some seeds and only when two keys compete, which "
+      "tests do not sample; as a shape (order-sensitive consumer on a hash-ordered iterator) it is enumerable: 228 sites, each auto-safe, audited "
+      "with a witness, or reported. This found the find_map over StaticMetadata.names (2 distinct fonts in 16 runs; repaired). It does NOT decide "
+      "that jobs are otherwise deterministic functions (float evaluation order inside kurbo/write-fonts, table packing).",
+      "Trusted: rustc MIR; ordered containers (IndexMap/BTreeMap/Vec) define order; tables/e2_hash_audit.json (reason + recorded flow signatures + "
+      "witness per audited site: a new flow at an audited site is reported), tables/e2_tables.json. Known imprecision, fail-closed: unrecognised uses "
+      "of a hash-ordered value need an audit entry; a last-wins insert into a map with colliding keys is only detected for the re-keyed-by-value collect form.",
+      "DESIGN.md section 4")
+
+claim("C18", "E2",
+      "static analysis: the C01 hash-order taint analysis restricted to the name flow (name-id allocation, name table assembly, fvar/STAT references, fea-rs name handling)",
+      "Static decision of ONE clause of C18: the name table and the name ids other tables refer to do not depend on anything but the source, i.e. "
+      "not on per-process hash iteration order. Referential integrity of name ids and the documented fallback chain are value-level and NOT decided.",
+      "Trusted: as for C01; scope = functions of fontir::ir::static_metadata, fontbe::{name,fvar,stat}, fea_rs::compile::{output,tables::name,tables::stat}, FeatureCompilationWork.",
+      "DESIGN.md section 4.3")
+
+
 def main():
     commits = []
     try:
@@ -130,6 +151,7 @@ def main():
         "engines": [
             {"name": "driver", "path": "driver/", "serves_properties": sorted(CLAIMS), "kind_free_text": "rustc_private fact extractor: MIR-lite, ADTs, impls, statics, format specs per crate (no verdicts)"},
             {"name": "E1", "path": "rules/e1.py", "serves_properties": ["C02", "C01"], "kind_free_text": "job effects + forced happens-before (static analysis over MIR facts)"},
+            {"name": "E2", "path": "rules/e2.py", "serves_properties": ["C01", "C18"], "kind_free_text": "hash-order taint analysis + nondeterminism who-may-call rules"},
             {"name": "E3", "path": "rules/e3.py", "serves_properties": ["C05", "C15"], "kind_free_text": "error discipline: type-resolved discard census"},
             {"name": "E4", "path": "rules/e4.py", "serves_properties": ["C15", "C13"], "kind_free_text": "crash containment, recursion census with guard re-checks, include guard, unsafe census"},
             {"name": "E5", "path": "rules/e5.py", "serves_properties": ["C05", "C13", "C14", "C20"], "kind_free_text": "sibling agreement and layering rules (table assembly, file names, pipeline dominator, cursor ownership)"},
